@@ -329,6 +329,21 @@ func c11TranscriptRun(a c11Transcript) caseResult {
 		}
 		raw, vraw = rnd(raw), rnd(vraw)
 	}
+	if v, ok := a.Cfg["num_public_inputs"]; ok {
+		// a circuit with v public inputs: the proof document carries exactly v of them (v = 0: none)
+		d := json.NewDecoder(bytes.NewReader(raw))
+		d.UseNumber()
+		var doc map[string]any
+		if err := d.Decode(&doc); err != nil {
+			panic(err)
+		}
+		pis, _ := doc["public_inputs"].([]any)
+		for uint64(len(pis)) < v {
+			pis = append(pis, json.Number(fmt.Sprint(len(pis)+1)))
+		}
+		doc["public_inputs"] = pis[:v]
+		raw, _ = json.Marshal(doc)
+	}
 	var rp ref.ProofWithPIs
 	var rv ref.VerifierOnly
 	var rc ref.Common
@@ -343,6 +358,9 @@ func c11TranscriptRun(a c11Transcript) caseResult {
 	if v, ok := a.Cfg["proof_of_work_bits"]; ok {
 		cd.Config.FriConfig.ProofOfWorkBits, cd.FriParams.Config.ProofOfWorkBits = v, v
 		rc.Config.FriConfig.ProofOfWorkBits, rc.FriParams.Config.ProofOfWorkBits = v, v
+	}
+	if v, ok := a.Cfg["num_public_inputs"]; ok {
+		cd.NumPublicInputs, rc.NumPublicInputs = v, v
 	}
 	if v, ok := a.Cfg["num_query_rounds"]; ok {
 		cd.Config.FriConfig.NumQueryRounds, cd.FriParams.Config.NumQueryRounds = v, v
@@ -389,7 +407,7 @@ func TestC11(t *testing.T) {
 	s := newSuite("C11")
 	r := s.r
 	defer r.Flush()
-	r.Rule("(1) histories of 0..200 challenger operations drawn by rapid from {ObserveElement, ObserveElements, ObserveHash, ObserveBN254Hash, ObserveCap, ObserveExtensionElement(s), GetChallenge, GetNChallenges, GetExtensionChallenge, GetHash} with canonical and value+k*p operands, executed in one circuit and compared squeeze by squeeze with the reference duplex challenger (model-based / stateful testing; the whole history shrinks as one value).  (2) VerifierChip.GetChallenges on the five real proofs and on transcripts of the same shape in which every field element and hash is re-drawn, compared with the reference transcript (betas, gammas, alphas, zeta, FRI alpha, FRI betas, PoW response, query indices); in part of the cases the transcript is derived two or three times on the same VerifierChip and the last result is compared (no state may leak between transcripts); a third of the transcripts uses a configuration variant (proof_of_work_bits in {0, 1, 15, 17, 40, 63} - the difficulty is not part of plonky2's transcript - or 1..40 query rounds).  (3) metamorphic: one observed value of a history changed => every squeeze after it changes, none before.  Non-trivial history = contains an observation after a squeeze and more than 8 pending observed elements (crosses the rate boundary); distinct = history.")
+	r.Rule("(1) histories of 0..200 challenger operations drawn by rapid from {ObserveElement, ObserveElements, ObserveHash, ObserveBN254Hash, ObserveCap, ObserveExtensionElement(s), GetChallenge, GetNChallenges, GetExtensionChallenge, GetHash} with canonical and value+k*p operands, executed in one circuit and compared squeeze by squeeze with the reference duplex challenger (model-based / stateful testing; the whole history shrinks as one value).  (2) VerifierChip.GetChallenges on the five real proofs and on transcripts of the same shape in which every field element and hash is re-drawn, compared with the reference transcript (betas, gammas, alphas, zeta, FRI alpha, FRI betas, PoW response, query indices); in part of the cases the transcript is derived two or three times on the same VerifierChip and the last result is compared (no state may leak between transcripts); a third of the transcripts uses a configuration variant (proof_of_work_bits in {0, 1, 15, 17, 40, 63} - the difficulty is not part of plonky2's transcript - 1..40 query rounds, or 0, 1, 7, 8, 9, 120 public inputs).  (3) metamorphic: one observed value of a history changed => every squeeze after it changes, none before.  Non-trivial history = contains an observation after a squeeze and more than 8 pending observed elements (crosses the rate boundary); distinct = history.")
 	r.Assume("reference Poseidon/challenger (validated by accepting the real proofs and reproducing the challenge constants of tests/fri_test.go)")
 
 	s.on("history", func(b json.RawMessage) caseResult {
@@ -499,9 +517,12 @@ func TestC11(t *testing.T) {
 		tc := c11Transcript{Base: b, Seed: fmt.Sprint(seed), Repeat: rep}
 		if rapid.IntRange(0, 2).Draw(rt, "cfg") == 0 {
 			tc.Cfg = map[string]uint64{}
-			if rapid.Bool().Draw(rt, "pow") {
+			switch rapid.IntRange(0, 2).Draw(rt, "which") {
+			case 0:
 				tc.Cfg["proof_of_work_bits"] = rapid.SampledFrom([]uint64{0, 0, 1, 15, 17, 40, 63}).Draw(rt, "pow_bits")
-			} else {
+			case 1:
+				tc.Cfg["num_public_inputs"] = rapid.SampledFrom([]uint64{0, 0, 1, 7, 8, 9, 120}).Draw(rt, "public_inputs")
+			default:
 				tc.Cfg["num_query_rounds"] = uint64(rapid.IntRange(1, 40).Draw(rt, "rounds"))
 			}
 			class += "/config-variant"
@@ -512,6 +533,9 @@ func TestC11(t *testing.T) {
 	for i, b := range corp.Names {
 		if mine(i + 7) {
 			s.exec(t, "transcript", c11Transcript{Base: b, Cfg: map[string]uint64{"proof_of_work_bits": 0}}, "transcript/real/config-variant")
+		}
+		if mine(i + 11) {
+			s.exec(t, "transcript", c11Transcript{Base: b, Seed: fmt.Sprint(1000 + i), Cfg: map[string]uint64{"num_public_inputs": 0}}, "transcript/random-same-shape/config-variant")
 		}
 	}
 	r.Done()
